@@ -10,6 +10,8 @@ KINDS = {0: ['L1', 'L2', 'L3', 'L4', 'L4d'], 1: ['O1', 'O2', 'O3', 'O8'], 2: ['N
 TU_OF = {k: tu for tu, ks in KINDS.items() for k in ks}
 TU_NAME = {0: 'limp4', 1: 'open', 2: 'one', 3: 'limp'}
 TUS = (0, 1, 2, 3)
+GEN = ['gen_policy_base.json', 'gen_policy_open2n2.json', 'gen_policy_open2n2_m1.json', 'gen_policy_open8.json',
+       'gen_index_base.json', 'gen_index_open2n2.json', 'gen_index_open8.json', 'gen_buckets.json']
 MAP_KINDS = ('L4', 'L1', 'O3', 'P3', 'N1')
 
 
@@ -361,6 +363,30 @@ def build(ctx):
     return res
 
 
+def leaf_cases(ctx, scale):
+    """translator validation grid: boundary table sizes x bucket capacities x hash codes / indices / probes"""
+    r = ctx.rng; out = []
+    for L in range(0, 63):
+        for mc in (1, 2, 3, 4, 7, 8, 15):
+            if (2 ** L) * mc * 2 < 2 ** 64:
+                out.append('leaf cap B %d %d' % (mc, L))
+        for mc in (1, 2, 3):          # double == exact rational arithmetic up to 2^53 slots (domain of the tie theorem)
+            if (2 ** L) * mc < 2 ** 53: out.append('leaf cap O2 %d %d' % (mc, L))
+        for mc in (7, 3, 1):
+            if (2 ** L) * mc < 2 ** 53: out.append('leaf cap O8 %d %d' % (mc, L))
+    for L in list(range(0, 64)):
+        bc = 2 ** L
+        vals = sorted(set(v for v in [0, 1, 2, bc // 2, bc - 2, bc - 1] if 0 <= v < bc))
+        for k in ('B', 'O2', 'O8'):
+            for i in vals:
+                for p in vals + [r.below(bc)]:
+                    hc = r.choice([0, 1, bc - 1, bc, bc + 1, 2 ** 64 - 1, r.below(2 ** 64)])
+                    out.append('leaf idx %s %d %d %d %d' % (k, hc, L, i, p))
+    for L in range(0, 17):
+        out.append('leaf cnt %d' % L)
+    return out
+
+
 def replay(ctx, rp):
     harnesses = build(ctx)
     if harnesses is None:
@@ -402,7 +428,8 @@ def first_diff(a, b):
 
 def run(ctx):
     scale = 1 if ctx.quick() else 8
-    ctx.trusted += ['extraction: ExtrOcamlBasic only (no Extract Constant), OCaml 4.13.1, zarith for decimal I/O only',
+    ctx.trusted += ['tools/cxx2coq.py + clang 14 JSON AST for the leaf functions (validated on every run against the real functions); double arithmetic of CalcCapacity translated to exact rationals',
+                    'extraction: ExtrOcamlBasic only (no Extract Constant), OCaml 4.13.1, zarith for decimal I/O only',
                     'g++ 12 -std=c++17, harness reaches private members via #define private public (mBuckets chain, bucket bounds, WasFull)',
                     'harness/kit.h failure injection (kit::MM allocation refusal, throwing hash through custom HashTraits)']
     ctx.assumptions += ['Bucket::AddCrt / item relocation give the strong guarantee when they throw (one migration step is atomic)',
@@ -410,6 +437,7 @@ def run(ctx):
                         'max-probe encoders never under-approximate (property C13); the extracted model uses the exact maximum',
                         'the failure schedule fed to the model is the one observed on the real run (refused array allocation, number of items migrated before the injected failure)',
                         'bucket counts stay below Buckets::maxBucketCount (no length_error path)']
+    ctx.regen(GEN)          # T-gen: the leaf arithmetic of the growth decision / probe sequence, from the current headers
     ctx.prove()
     harnesses = build(ctx)
     if harnesses is None:
@@ -426,8 +454,16 @@ def run(ctx):
         ctx.violation('real HashSet/HashMap violates the property: ' + why,
                       {'case': c, 'why': why, 'cmd': 'echo "%s" | build/C11/h%d sched' % (c, tu)}, found_input=True)
     stats.pop('_chk_cases', None)
-    have_model = ctx.stages.get('prove', {}).get('ok') and ctx.extract()
+    # the model is extracted even when a proof broke (make -k has built GrowModel.vo and the regenerated Gen_*.vo unless THEY
+    # are what broke): the correspondence is then the search stage that turns a broken proof into a concrete input
+    have_model = ctx.extract()
     if have_model:
+        lc = leaf_cases(ctx, scale)
+        mism, _ = ctx.correspond('translator-validation', lc, [harnesses[2]], [ctx.model_exe])
+        ctx.tie_obligations.append({'name': 'generated leaf functions == real C++ on %d boundary cases' % len(lc), 'ok': not mism})
+        for (i, c, a, b) in mism[:3]:
+            ctx.violation('generated Gallina and the real function disagree', {'case': c, 'impl': a, 'model': b,
+                          'cmd': 'echo "%s" | build/C11/h2' % c}, found_input=True)
         for tu in TUS:
             if not annotated[tu]:
                 continue
